@@ -34,6 +34,9 @@ CHECKS = {
    note="Trusted base: clang 14's front end (constant evaluation, template instantiation, sizeof/alignof of the x86 vector types); the register widths 128/256/512 of the SSE/AVX/AVX512 families. Decided for clang's view of the headers with every x86 ISA macro enabled, and once per single-ISA flag set for the relations that depend on supported().",
    technique='compile-time witnesses: generated static_assert obligations decided by the C++ type checker (clang -fsyntax-only), no execution',
    text="Every relation of the property is a C++ constant expression over the headers; ~67 000 static_assert witnesses are generated per (relation, architecture in all_x86_architectures + emulated<128/256>, 21 element types incl. char/long/long long aliases, lane count N = 1..128, 22 ISA flag sets): size*sizeof(T) = register width of the family; sizeof(register_type); batch_bool / complex lane counts and associated types; alignment() power of two and >= alignof(register_type) (the compiler's statement of what aligned loads need); for every pair (A,P) with P a base of A, A precedes P in all_x86_architectures, and wider families precede narrower ones; arch_list::alignment() = max over all pairs, both orders, and cross-family triples; supported_architectures is an order-preserving sub-list of all_architectures containing A iff A::supported(), best_arch/default_arch its head; make_sized_batch<T,N> for every N in 1..128 is void or a batch with exactly N lanes of T and equals the first supported architecture with such a register; is_batch/is_batch_bool/is_batch_complex/scalar_type/mask_type/as_logical/simd_return_type/as_integer/as_unsigned_integer/as_float name types of matching width, count and architecture. The property holds for the enumerated instantiations iff the witness TUs type-check; a failing witness names (relation, architecture, type, N, flag set)."),
+ 'C19': dict(level='exploration', design='3.C19', engine='lane-terms',
+   technique='compile-time witnesses (static_assert / type identity decided by clang -fsyntax-only) + static byte-provenance analysis of optimised LLVM IR per instantiation',
+   text="Exploration over instantiations, each decided exactly without execution. (1) Type-level witnesses, per architecture (21 x86 + emulated<128/256>) and element type: batch_constant/batch_bool_constant get(i) for every i and mask() (n<=32) on packs covering each lane independently (one-hot, all-but-one, alternating, halves, extremes, VERIF_SEED random); make_batch_constant/make_batch_bool_constant for 12 generator functors (type identity with the expected pack); every compile-time operator (+,-,*,/,%,&,|,^,~,unary -,+ and &&,||,!,&,|,^,~ on bool constants) by std::is_same against the pack whose elements are the SCALAR expression (T)((T)x op (T)y) evaluated by the compiler; compile-fail witnesses for wrong-arity packs. (2) IR provenance, per configuration and type: as_batch()/operator batch()/as_batch_bool() compile to the literal vector/mask with lane i = v_i/b_i; select(batch_bool_constant,x,y), swizzle/shuffle with batch_constant, swizzle with the constant converted to a run-time index batch, insert<I>, slide_left/right<N>, rotate_left/right<N> yield exactly the lanes the run-time definition names (the run-time forms themselves are decided in C03/C05). The instantiation space (packs, generators, operand pairs) is explored, not exhausted."),
 }
 NA = {}
 def main():
